@@ -117,7 +117,10 @@ def m_subtags(c, binp, tier, light=False):
             ("sub-reduced%d" % (7 if tier == "quick" else 9), dict(MaxLen=7 if tier == "quick" else 9, FullLen=2, Alpha="reduced", Emit=True))]
     if not light:
         # every byte value at every position of a short string (one odd byte per string)
-        runs += [("sub-oneodd%d" % (4 if tier == "quick" else 5), dict(MaxLen=4 if tier == "quick" else 5, FullLen=0, Alpha="oneodd", Emit=True))]
+        runs += [("sub-oneodd%d" % (4 if tier == "quick" else 5), dict(MaxLen=4 if tier == "quick" else 5, FullLen=0, Alpha="oneodd", Emit=True)),
+                 # long subtags: every byte value at every position / two alphanumerics at every pair of positions, rest filled
+                 ("sub-fill1", dict(MaxLen=9, FullLen=0, Alpha="fill1", Emit=True)),
+                 ("sub-fill2", dict(MaxLen=9, FullLen=0, Alpha="fill2", Emit=True))]
     if tier == "thorough":
         runs += [("sub-all3", dict(MaxLen=3, FullLen=3, Alpha="all", Emit=True))]
     for name, consts in runs:
